@@ -9,7 +9,7 @@ import (
 )
 
 func init() {
-	register(ruleDef{ID: "R12.1", Prop: "C12", Tier: "quick", Floor: 6,
+	register(ruleDef{ID: "R12.1", Prop: "C12", Tier: "quick", Floor: 4,
 		Title: "repo/version/instance id counters: every increment is made under idMutex (write) and persisted (putNewIDs) afterwards on every success exit",
 		Fn:    func(r *Run) { checkCounterPersist(r) }})
 	register(ruleDef{ID: "R12.2", Prop: "C12", Tier: "quick", Floor: 8,
@@ -103,10 +103,7 @@ func ruleR12_2(r *Run) {
 					continue
 				}
 				n++
-				isPersist := func(in ssa.Instruction) bool {
-					c, ok := in.(ssa.CallInstruction)
-					return ok && c.Common().StaticCallee() == p
-				}
+				isPersist := func(in ssa.Instruction) bool { return w.performs(in, []string{p.Name()}, 2) }
 				succ := func(in ssa.Instruction) bool {
 					ret, ok := in.(*ssa.Return)
 					return ok && !isErrorExit(ret)
